@@ -569,6 +569,18 @@ def install(w):
             it.st.env = saved
     B["closure"] = b_closure
 
+    # ------------------------------------------------------------------ havocked callbacks (A5)
+    def b_callback(it, f, args, kw, node):
+        """A user supplied callback: counted in a ghost counter; returns anything or raises."""
+        spec = f.recv.obj
+        use("user callbacks (on_error, ...) are havocked: any result or any Exception (A5)")
+        it.ghost_bump(spec[1])
+        if it.choose(2, "callback outcome") == 1:
+            raise _Raise(VExc(Exception, origin=f"callback {f.name}", okind="RAISES", exact=False,
+                              lineno=getattr(node, "lineno", 0)))
+        return VOpaque("callback_result")
+    B["callback"] = b_callback
+
     # ------------------------------------------------------------------ typing.cast
     B["py:cast"] = lambda it, f, args, kw, node: args[1]
 
